@@ -200,3 +200,18 @@ META["C16"] = M(
          "pinv(A, alg) @ b (alg omitted/Auto/LSTSQ/CG; consistent and inconsistent, 1-D and multi-column b) compared with the "
          "minimum-norm least-squares solution of the reference in solution, norm and residual; plus the >10^6-entry side of "
          "pinv's Auto switch; distinct = configuration tuple")
+
+META["C17"] = M(
+    shards={"quick": 16, "thorough": 64}, budget={"quick": 50, "thorough": 800},
+    floors={"quick": {"evals": 2000, "distinct": 300}, "thorough": {"evals": 40000, "distinct": 4000}},
+    required=["same-key-bit-identical", "global-state-untouched", "rng-trace-well-bracketed", "user-stream-conserved",
+              "estimator-formula", "key-advanced-between-iterations", "iteration-cap", "unbiased-within-7-sigma",
+              "rademacher-exact-on-diagonal-operator", "probe-moments"],
+    rule="every drawing routine (Hutchinson diag/trace through the function and through Hutch(), stochastic Lanczos quadrature, "
+         "default start vectors of Lanczos / Arnoldi / power iteration, Nystrom preconditioner, randomised SVD, LOBPCG) called "
+         "twice with the same key around user draws and a reseed (bit-identical results), with the global NumPy state "
+         "snapshotted before/after (bitwise), the numpy.random API tapped and checked against the bracket specification "
+         "(get_state seed draw* set_state)*, random histories of user draws / reseeds / cola calls compared with a control "
+         "stream (conservation), the Hutchinson estimate recomputed from the recorded probes for all offsets k and both probe "
+         "distributions, probe moments in 7-sigma bands, iteration cap on recorded loop states, and a keyed 60-run bias test; "
+         "distinct = configuration / history signature")
